@@ -132,4 +132,77 @@ theorem dinv_init (c : Cfg) (hn : 0 < c.topo.n) : DInv c (dinit c) := by
   all_goals simp [dinit, init, tokCount]
   · intro i _ b hb r _; exact Or.inl hb
 
+/-! ## facts about protocol steps -/
+
+theorem step_msgInc_eq {t : Topo} {p p' : St} {i k : Nat} (h : step t p (.msgInc i k) = some p') :
+    p' = { p with pool := p.pool.inc, msgs := ⟨i, k⟩ :: p.msgs } ∧ i < t.n ∧ k < t.nl i := by
+  simp only [step] at h; split at h
+  · rename_i hg; injection h with h; exact ⟨h.symm, hg.1, hg.2.1⟩
+  · simp at h
+
+theorem step_msgDone_eq {t : Topo} {p p' : St} {i k : Nat} (h : step t p (.msgDone i k) = some p') :
+    p' = decStep { p with msgs := p.msgs.erase ⟨i, k⟩ } ∧ (⟨i, k⟩ : Msg) ∈ p.msgs := by
+  simp only [step] at h; split at h
+  · rename_i hg; injection h with h; exact ⟨h.symm, hg⟩
+  · simp at h
+
+theorem step_liftable_msgs {t : Topo} {p p' : St} {a : Act} (hl : liftable a = true) (h : step t p a = some p') :
+    p'.msgs = p.msgs := by
+  cases a <;> simp [liftable] at hl <;> simp only [step] at h <;> split at h <;>
+    first | (injection h with h; subst h; rfl) | (simp at h)
+
+theorem upd_ne_running {pc : Nat → PC} {i x : Nat} {v : PC} (hv : v ≠ .running) (h : upd pc i v x = .running) :
+    pc x = .running ∧ x ≠ i := by
+  by_cases e : x = i
+  · subst e; simp at h; exact absurd h hv
+  · rw [upd_other _ _ _ _ e] at h; exact ⟨h, e⟩
+
+/-- a lifted protocol step never makes a member `running`, and only `report x` ends the `running` phase of `x` -/
+theorem step_liftable_running {t : Topo} {p p' : St} {a : Act} (hl : liftable a = true) (h : step t p a = some p') (x : Nat) :
+    (p'.pc x = .running → p.pc x = .running) ∧ (p.pc x = .running → p'.pc x = .running ∨ a = .report x) := by
+  cases a <;> simp [liftable] at hl <;> simp only [step] at h <;> split at h <;>
+    first
+    | (simp at h; done)
+    | (rename_i hg; injection h with h; subst h
+       first
+       | exact ⟨id, Or.inl⟩
+       | (refine ⟨fun hh => (upd_ne_running (by simp) hh).1, fun hh => ?_⟩
+          rename_i i
+          by_cases e : x = i
+          · subst e
+            first
+            | exact Or.inr rfl
+            | (exfalso; simp_all)
+          · left; dsimp only; rw [upd_other _ _ _ _ e]; exact hh))
+
+theorem tokCount_pos {ts : List Task} {T : Task} {m : Msg} (h : T ∈ ts) (hm : cycTok T = some m) : 0 < tokCount ts m := by
+  have := tokCount_erase h m
+  simp [hm] at this; omega
+
+/-- in a quiescent state (counter 0) there is no task at all -/
+theorem no_tasks_of_zero {c : Cfg} {s : DSt} (h : DInv c s) (h0 : s.p.pool.inflight = 0) : s.tasks = [] := by
+  have hq := (quiescent_iff h.pinv).mpr h0
+  cases ht : s.tasks with
+  | nil => rfl
+  | cons T rest =>
+    exfalso
+    have hT : T ∈ s.tasks := by rw [ht]; simp
+    cases hs : T.src with
+    | none => exact (hq.1 _ (h.wfOwner T hT)).1 (h.stdRun T hT hs)
+    | some jk =>
+      have hm : cycTok T = some ⟨jk.1, jk.2⟩ := by simp [cycTok, hs]
+      have := tokCount_pos hT hm
+      rw [← h.tok, hq.2] at this
+      simp at this
+
+/-- once a listener is closed or a member is past `WaitForAllReady`, the counter is 0 -/
+theorem zero_of_teardown {c : Cfg} {s : DSt} (h : DInv c s) (i : Nat) (hi : i < c.topo.n)
+    (ht : 3 ≤ rank (s.p.pc i) ∨ 0 < s.p.closed i ∨ s.p.pool.qClosed = true) : s.p.pool.inflight = 0 := by
+  have hq : s.p.pool.qClosed = true := by
+    rcases ht with h3 | hc | hq
+    · exact h.pinv.beyond i hi h3
+    · exact h.pinv.beyond i hi (by have := h.pinv.closedPos i hi hc; omega)
+    · exact hq
+  exact h.pinv.latchQ (Or.inr (by rw [← h.pinv.zeroQ]; exact hq))
+
 end OpenFGAVerif.Proofs.CycleData
